@@ -89,6 +89,23 @@ def _validate_or_infer_cutoff(
     state._config.cutoff = max(state._config.cutoff, required_cutoff)
 
 
+def _place_occupation_numbers_on_modes(
+    state: PassiveState, occupation_numbers: np.ndarray, modes: Tuple[int, ...]
+) -> np.ndarray:
+    """Places the occupation numbers on the modes specified by the instruction.
+
+    The i-th occupation number belongs to the i-th specified mode (in the order the modes
+    are given), and the unspecified modes are unoccupied.
+    """
+    if not modes or len(modes) != len(occupation_numbers):
+        return occupation_numbers
+
+    placed_occupation_numbers = np.zeros(shape=state.d, dtype=int)
+    placed_occupation_numbers[modes,] = occupation_numbers
+
+    return placed_occupation_numbers
+
+
 def state_vector(
     state: PassiveState, instruction: Instruction, shots: int
 ) -> List[Branch]:
@@ -104,7 +121,9 @@ def state_vector(
         occupation_numbers = instruction._get_all_params(state._connector)[
             "occupation_numbers"
         ]
-        occupation_numbers = np.rint(occupation_numbers).astype(int)
+        occupation_numbers = _place_occupation_numbers_on_modes(
+            state, np.rint(occupation_numbers).astype(int), instruction.modes
+        )
 
         _validate_or_infer_cutoff(state, occupation_numbers, instruction)
 
@@ -116,7 +135,9 @@ def state_vector(
             state._connector
         )["fock_amplitude_map"].items():
 
-            occupation_numbers = np.rint(occupation_numbers).astype(int)
+            occupation_numbers = _place_occupation_numbers_on_modes(
+                state, np.rint(occupation_numbers).astype(int), instruction.modes
+            )
 
             _validate_or_infer_cutoff(state, occupation_numbers, instruction)
 
